@@ -207,8 +207,10 @@ def _unpack_stack(scope, only_errors=True):
     while LAST_CHILD_SCOPE in scope:
         child = scope[LAST_CHILD_SCOPE]
         branches = scope[CHILD_ERRORS]
-        if branches == [child]:
-            branches = []  # if there's only one branch, count it as linear
+        if len(branches) == 1 and branches[0] is child:
+            # if there's only one branch, count it as linear (identity, not ==:
+            # comparing scopes by value can recurse without end, see also #189)
+            branches = []
         stack.append([scope, scope[Spec], scope[T], scope.get(CUR_ERROR), branches])
 
         # NB: this id() business is necessary to avoid a
